@@ -60,6 +60,11 @@ R1v == Rot(27, IQUV2, <<1, 0, 0, 1>>)
 Hwv == Term("hwp", 28, IQUV2, <<>>, <<>>)
 Plv == Term("pol", 29, IQUV2, <<>>, <<>>)
 A2 == Dense(30, v2, 2, 2, <<2, 1, 1, 3>>)          \* same matrix as A, another object
+m222 == LeafF(<<2, 2, 2>>)
+Mc == Term("mvax", 31, m222, <<0, 1, 2, 1, 2, 0>>, <<>>)   \* cyclic shift of three axes of equal length (not an involution)
+Mn == Term("mvax", 32, m222, <<-3, -1, -1, -2>>, <<>>)     \* two axes, negative positions
+Dq == Term("diagq", 33, v2, <<16777216, 1, -3>>, <<>>)   \* values 2^-24 and -3 * 2^-24: tiny non-zero entries
+Dh == Term("diagq", 34, v3, <<2, 1, 2000000, 3>>, <<>>)         \* values 1/2, 10^6, 3/2
 
 Inv(t) == InvOf(t)
 
@@ -76,7 +81,7 @@ AtomTable ==
     PlT |-> TOf(Pl),
     I2v |-> Id(v2), I3v |-> Id(v3), Iqu |-> Id(QU2), Im |-> Id(m23),
     H2 |-> Hom(2, 1, v2), Hh |-> Hom(-1, 2, v2), H3 |-> Hom(3, 1, v3), Hq |-> Hom(-3, 1, QU2), Hm |-> Hom(1, 2, m23),
-    H6 |-> Hom(2, 1, v6), D0 |-> D0, D0I |-> DInvOf(D0), D3I |-> DInvOf(D3), AB |-> AddT(<<A, B>>) ]
+    H6 |-> Hom(2, 1, v6), D0 |-> D0, D0I |-> DInvOf(D0), Mc |-> Mc, McT |-> Transpose(Mc), Mn |-> Mn, Dq |-> Dq, DqI |-> DInvOf(Dq), Dh |-> Dh, D3I |-> DInvOf(D3), AB |-> AddT(<<A, B>>) ]
 
 AllAtomNames == DOMAIN AtomTable
 =============================================================================
